@@ -51,12 +51,31 @@ def csv_cases(tier):
             t1, t2 = TIMES[k % len(TIMES)], TIMES[(k + 2) % len(TIMES)]
             spec = cont((a, [(t1[0], t1[1], l), (t2[0], t2[1], "second")]), ("other", [(t2[0], t2[1], l)]))
             out.append({"fmt": "csv", "spec": spec, "delim": d})
+    # unit times held as NumPy scalars (segments computed from arrays): float64 and int64 print like the Python numbers
+    for k, tt in enumerate(("float64", "int64", "float64")):
+        for d in DELIMS[:2]:
+            times = [(0, 1), (5, 7), (-3, -1)] if tt == "int64" else TIMES
+            t1, t2 = times[k % len(times)], times[(k + 2) % len(times)]
+            spec = cont(("ann", [(t1[0], t1[1], "lab"), (t2[0], t2[1], "second")]), ("other", [(t2[0], t2[1], "lab")]))
+            out.append({"fmt": "csv", "spec": spec, "delim": d, "timetype": tt})
     return out
+
+
+def build_typed(pa, spec, tt):
+    import numpy as np
+    from pyannote.core import Segment
+    conv = getattr(np, tt)
+    c = pa.Continuum()
+    for name, units in spec["annotators"]:
+        c.add_annotator(name)
+        for s_, e_, lab in units:
+            c.add(name, Segment(conv(s_), conv(e_)), lab)
+    return c
 
 
 def run_csv(pa, case, d):
     spec, delim = case["spec"], case["delim"]
-    c = build_continuum(spec)
+    c = build_continuum(spec) if not case.get("timetype") else build_typed(pa, spec, case["timetype"])
     path = os.path.join(d, "f.csv")
     c.to_csv(path, delimiter=delim)
     back = pa.Continuum.from_csv(path, delimiter=delim)
